@@ -250,9 +250,11 @@ def run_case(case: dict) -> dict:
                     probes["edits"] += 1
                     edited.update((id(t), id(u)))
             elif name == "clone":
-                tests[op["a"] % len(tests)] = t.clone()
+                # keep BOTH the original and its clone alive (the clone replaces another pool slot), so that caches
+                # shared between the two by mistake are observable
+                tests[op["b"] % len(tests)] = t.clone()
                 if id(t) in edited:
-                    edited.add(id(tests[op["a"] % len(tests)]))
+                    edited.add(id(tests[op["b"] % len(tests)]))
             elif name == "add_ff":
                 if late:
                     f_ = late[op["f"] % len(late)]
@@ -273,7 +275,7 @@ def run_case(case: dict) -> dict:
                     probes["edits"] += 1
                     edited.update((id(s), id(s2)))
             elif name == "s_clone":
-                suites[op["a"] % len(suites)] = s.clone()
+                suites[op["b"] % len(suites)] = s.clone()
             elif name == "s_add":
                 s.add_test_case_chromosome(tests[op["b"] % len(tests)].clone())
                 edited.add(id(s))
